@@ -20,7 +20,7 @@ from aiocoap.transports import tcp
 
 PROP = "C15"
 LEVEL = "model_checking"
-RULE = ("E1: all sequences up to length L over a frame alphabet (CSM plain / elective option / critical option, requests with "
+RULE = ("E1: all sequences up to length L over a frame alphabet (CSM plain / elective option / critical option / announcing a small Max-Message-Size, requests with "
         "length field 0,12,13,268,269, response with unknown token, Ping, Pong, Release, Abort, Empty, unknown signalling code, "
         "oversized frame, TKL 9, three kinds of unparsable options) with and without a leading CSM, each fed under every chunking "
         "of a family (all compositions for streams <= 12 bytes; else whole, bytewise, fixed sizes, every single cut, strided pairs "
